@@ -36,7 +36,7 @@ func (vt *Model) osc(data string) {
 				return
 			}
 			resp := fmt.Sprintf("\x1b]11;rgb:%02x/%02x/%02x\x07", rgb[0], rgb[1], rgb[2])
-			vt.pty.WriteString(resp)
+			vt.reply(resp)
 		}
 	case "52":
 		if vt.vx == nil {
